@@ -442,6 +442,17 @@ pub fn boundary_case(id: u64, segments: Option<i32>) -> GenCase {
     }
 }
 
+pub fn ring_case(id: u64, segments: Option<i32>, closed: bool) -> GenCase {
+    let b = cell_to_boundary(id, Some(CellToBoundaryOptions { closed_ring: closed, segments })).unwrap();
+    let pts: Vec<String> = b.iter().map(|p| format!("({}, {})", dy(p.longitude()), dy(p.latitude()))).collect();
+    let seg = match segments { Some(n) => format!("(Some {})", n), None => "None".into() };
+    GenCase {
+        coq: format!("GRing {} {} {} [{}] {}", crate::idcorr::u(id), seg, closed, pts.join("; "), TOL30),
+        desc: format!("cell_to_boundary({:x}, segments {:?}, closed {}) -> {} points", id, segments, closed, b.len()),
+        kind: "cell_to_boundary_ring".into(),
+    }
+}
+
 /// geographic points of interest for lookups
 pub fn lookup_point(rng: &mut Rng) -> (f64, f64) {
     let to_ll = |t: f64, p: f64| {
@@ -527,7 +538,11 @@ pub fn cases_c11(rng: &mut Rng, thorough: bool) -> Vec<GenCase> {
             _ => random_cell(rng, res),
         };
         let seg = match rng.below(3) { 0 => Some(1), 1 => Some(2), _ => Some(3) };
-        v.push(boundary_case(id, seg));
+        if k % 2 == 0 {
+            v.push(ring_case(id, seg, rng.chance(1, 2)));
+        } else {
+            v.push(boundary_case(id, seg));
+        }
         if a5::get_resolution(id) >= 5 && rng.chance(1, 3) {
             v.push(boundary_case(id, None));
         }
